@@ -366,6 +366,14 @@ class PropertyCheck:
         # 2. correspond
         corr = CorrResult()
         corr_err = None
+        cov = None
+        if drv_ok:
+            try:
+                import coverage as _coverage
+                cov = _coverage.Coverage(include=[str(REPO / f) for f in self.anchored if "*" not in f], branch=True, data_file=None)
+                cov.start()
+            except Exception:
+                cov = None
         if drv_ok:
             try:
                 corr = self.correspond()
@@ -374,6 +382,22 @@ class PropertyCheck:
             except Exception as e:  # harness crashed on changed code: treat as broken correspondence
                 corr_err = traceback.format_exc()[-4000:]
                 broken.append({"kind": "correspondence harness exception", "detail": f"{type(e).__name__}: {e}"})
+        self.code_coverage = None
+        if cov is not None:
+            try:
+                cov.stop()
+                cc = {}
+                for f in self.anchored:
+                    if "*" in f:
+                        continue
+                    try:
+                        _, stmts, _, missing, _ = cov.analysis2(str(REPO / f))
+                        cc[f] = {"statements": len(stmts), "executed": len(stmts) - len(missing), "missing_lines": missing[:40]}
+                    except Exception as e:
+                        cc[f] = {"error": str(e)[:80]}
+                self.code_coverage = cc
+            except Exception:
+                pass
         for d in corr.disagreements[:20]:
             broken.append({"kind": "correspondence disagreement", "detail": jsonable(d.case), "model": jsonable(d.model),
                            "impl": jsonable(d.impl), "note": d.note})
@@ -436,6 +460,9 @@ class PropertyCheck:
                 "known_findings_replayed": known_lines,
                 "technique": self.technique,
                 "leanchecker": getattr(self, "leanchecker", None),
+                "anchored_code_executed_by_correspondence": getattr(self, "code_coverage", None),
+                "anchored_code_executed_note": "statement coverage of the anchored repo files measured around the correspondence only: module-level "
+                                               "statements run at import time (before the measurement) and code run in child processes count as missing",
             },
             "assumptions": list(self.assumptions),
             "wall_s": round(wall, 2),
